@@ -46,7 +46,7 @@ func gen(tier string, seed int64) []hx.Scenario {
 					out = append(out, hx.Scenario{Name: "dss", Cfg: fmt.Sprintf("n=%d t=%d signers=%v keys=poly", n, t, o), Run: func(x *hx.Ctx) { honest(x, n, t, o, false) }})
 				}
 			}
-			for _, f := range []string{"value+d", "forged-sig", "other-session", "duplicate", "bigidx", "idx-swapped", "unsigned", "other-msg", "own-again", "late-value+d", "late-forged"} {
+			for _, f := range []string{"value+d", "forged-sig", "other-session", "duplicate", "bigidx", "idx-swapped", "unsigned", "other-msg", "own-again", "late-value+d", "late-forged", "own-first"} {
 				out = append(out, hx.Scenario{Name: "dss-fault", Cfg: fmt.Sprintf("n=%d t=%d fault=%s", n, t, f), Run: func(x *hx.Ctx) { fault(x, n, t, f) }})
 			}
 		}
@@ -291,6 +291,35 @@ func fault(x *hx.Ctx, n, t int, kind string) {
 				x.NoErr("signature still verifies", schnorr.Verify(s, w.long[0].Public(), msg, after))
 			}
 		}
+	case "own-first":
+		// the combiner receives its OWN partial first (a second replica holding the same key shares, or a broadcast
+		// looping back) and only then signs itself: the index is then held twice. Whatever the arrival order, a
+		// signature needs t DISTINCT signers and is the standard one.
+		for _, others := range []int{t - 2, t - 1} {
+			if others < 0 || others > n-1 {
+				continue
+			}
+			replica := w.newDSS(x, me, msg)
+			mineR, err := replica.PartialSig()
+			x.NoErr("replica PartialSig", err)
+			c := w.newDSS(x, me, msg)
+			x.Outcome("own partial accepted before signing", c.ProcessPartialSig(mineR) == nil)
+			_, err = c.PartialSig()
+			x.NoErr("PartialSig after the own partial looped back", err)
+			// the other partials come from the HIGHEST indices, so that the repeated index is among the lowest collected
+			for j := n - 1; j > n-1-others; j-- {
+				dj := w.newDSS(x, j, msg)
+				pj, _ := dj.PartialSig()
+				x.NoErr("other partial accepted", c.ProcessPartialSig(pj))
+			}
+			sig, err := c.Signature()
+			if others+1 < t {
+				x.Err(fmt.Sprintf("no signature from %d distinct signers (own index held twice)", others+1), err)
+			} else if x.NoErr("signature from t distinct signers (own index held twice)", err) {
+				x.NoErr("that signature verifies", schnorr.Verify(s, w.long[0].Public(), msg, sig))
+			}
+		}
+		return
 	case "own-again":
 		mine, err := d.PartialSig()
 		x.NoErr("own PartialSig", err)
